@@ -11,6 +11,7 @@ tags with no attributes; the payload marker occurs only inside text nodes, and h
 """
 import html
 import html.parser
+import re
 
 import h2peer
 import ref_http1
@@ -49,7 +50,9 @@ def strategy(ctx):
     pad = st.sampled_from([200, 1000, 2040, 2048, 3000, 5000, 9000])
     long_ = st.tuples(short, pad, st.sampled_from(["head", "middle", "tail"])).map(
         lambda t: (t[0] + "p" * t[1]) if t[2] == "head" else ("p" * t[1] + t[0]) if t[2] == "tail" else ("p" * (t[1] // 2) + t[0] + "p" * (t[1] // 2)))
-    payload = st.one_of(short, short, short, long_)
+    # multi-line messages (upstream/TLS connect errors span several lines): markup after the first line
+    multi = st.tuples(short, st.sampled_from(["\n", "\r\n", "\n\n", "\n  "])).map(lambda t: "Errno 111 connect failed" + t[1] + t[0] + t[1] + "tail")
+    payload = st.one_of(short, short, short, long_, multi)
     return st.tuples(st.sampled_from(H1_KINDS + H1_KINDS + H2_KINDS), payload, st.booleans())
 
 
@@ -94,7 +97,19 @@ class Collect(html.parser.HTMLParser):
         self.other.append(("unknown", data))
 
 
-def judge_html(body: bytes, payload: str, where: str, ctx):
+def neutral(payload: str) -> str:
+    """the same message with every markup-significant character replaced by a letter"""
+    return re.sub(r"[<>&\"'/=!#;-]", "x", payload)
+
+
+def structure(body: bytes):
+    c = Collect()
+    c.feed(body.decode("utf-8", "replace"))
+    c.close()
+    return (c.tags, c.attrs, c.other)
+
+
+def judge_html(body: bytes, payload: str, where: str, ctx, ref_body=None):
     try:
         text = body.decode("utf-8")
     except UnicodeDecodeError:
@@ -103,8 +118,14 @@ def judge_html(body: bytes, payload: str, where: str, ctx):
     c = Collect()
     c.feed(text)
     c.close()
-    if c.tags != SKELETON or c.attrs or c.other:
-        ctx.fail("error-page-markup-injected:%s" % where, "tags=%r attrs=%r other=%r body=%r" % (c.tags, c.attrs, c.other, text[:400]))
+    # differential oracle: the markup structure of the page must be the one the same error produces for a payload
+    # without any markup-significant character (robust against redesigns of the page skeleton)
+    # (when the neutral payload produces no error page at all, e.g. a header name that is only invalid because of its
+    #  markup characters, the fixed skeleton is the reference)
+    want = structure(ref_body) if ref_body else (SKELETON, [], [])
+    if (c.tags, c.attrs, c.other) != want:
+        ctx.fail("error-page-markup-injected:%s" % where, "tags=%r attrs=%r other=%r (neutral payload gives %r) body=%r" % (
+            c.tags, c.attrs, c.other, want[0], text[:400]))
         return False
     joined = "".join(c.text)
     reflected = MARK in joined
@@ -224,7 +245,9 @@ def check_case(case, ctx):
             if status >= 400 and hd.get(b"server", b"").startswith(b"mitmproxy"):
                 if not hd.get(b"content-type", b"").lower().startswith(b"text/html"):
                     ctx.fail("error-page-content-type:" + kind, repr(r.headers))
-                if judge_html(r.data, payload, kind, ctx):
+                _, peer2 = run_h2(kind, neutral(payload), flag)
+                r2 = peer2.streams.get(sid)
+                if judge_html(r.data, payload, kind, ctx, ref_body=r2.data if r2 is not None else None):
                     ctx.nt((kind, payload), "reflected:" + kind)
                 else:
                     ctx.cls("page-without-payload:" + kind)
@@ -252,7 +275,10 @@ def check_case(case, ctx):
                 ctx.fail("error-page-content-type:" + kind, repr(m.fields))
             if m.framing != "cl":
                 ctx.fail("error-page-framing:" + kind, m.framing)
-            if judge_html(m.body, payload, kind, ctx):
+            _, out2, _ = run_h1(kind, neutral(payload), flag)
+            res2 = ref_http1.parse_responses(out2, [b"GET"] * 4)
+            ref_pages = [x for x in res2.msgs if x.status >= 400 and b"".join(x.get_all(b"server")).startswith(b"mitmproxy")]
+            if judge_html(m.body, payload, kind, ctx, ref_body=ref_pages[0].body if ref_pages else None):
                 ctx.nt((kind, payload), "reflected:" + kind)
             else:
                 ctx.cls("page-without-payload:" + kind)
